@@ -133,6 +133,18 @@ CallOK(C, E, j) ==
            [] k = "overlap_step" -> OverlapStepOK(C, E, c) \/ Reject(j, k, "stepwise overlapping differs")
            [] k = "probe" -> ProbeOK(C, E, j, c)
            [] k = "work" -> WorkOK(C, E, j, c)
+           [] k = "same" -> CRes(c)[1] = TRUE
+                              \/ Reject(j, k, "the searcher's table changed while it was being searched")
+           [] k = "occ" ->
+                 \* hay is pattern CX(c) itself, searched anchored: the match must be a genuine
+                 \* occurrence whose id names a pattern that really is there (C20); for small
+                 \* collections it must be exactly the oracle's answer
+                 LET r == ToM(CRes(c)) IN
+                 /\ IsOccurrence(C.ctx.pats, E.hay, E.s, E.e, C.ctx.ci, TRUE, r)
+                       \/ Reject(j, k, "the reported pattern id does not occur at the reported span")
+                 /\ (Len(C.ctx.pats) > 200
+                       \/ r = FindOracle(C.ctx.pats, C.ctx.mk, E.hay, E.s, E.e, C.ctx.ci, TRUE))
+                       \/ Reject(j, k, "pattern identifier differs from the oracle")
            [] k = "recipe" ->
                  LET o == FindOracle(C.ctx.pats, C.ctx.mk, E.hay, 0, Len(E.hay), C.ctx.ci, FALSE) IN
                  /\ ToM(CRes(c)[1]) = o \/ Reject(j, k, "the documented caller-written loop differs from the oracle")
